@@ -768,6 +768,167 @@ pub fn run_wide_th(seed: u64, rt: &tokio::runtime::Runtime) -> Outcome {
     }
 }
 
+/// E-T "two-writer" scenarios (operations on one actor from different threads, racing its exit):
+///  B: joiner threads put [leaver, own actor] into fresh groups in one call while the leaver exits; an all-scopes monitor
+///     must see, per group, as many Leaves as Joins for the leaver (both 0 or both 1) and exactly one Join for the joiner's
+///     own actor; afterwards the leaver is in no group.
+///  C: every actor sits in one group; one thread takes each out of it while another puts the same actors into fresh groups;
+///     then all actors exit: nothing of them may remain anywhere.
+pub fn run_two_writer_th(seed: u64, rt: &tokio::runtime::Runtime) -> Outcome {
+    let mut p = Prng::new(seed ^ 0x2b);
+    let intensity = *p.pick(&[0u32, 30, 60]);
+    th::begin(seed, intensity);
+    let variant_b = p.chance(1, 2);
+    let scope = scopes()[p.below(2) as usize].clone();
+    let trace = Arc::new(Trace::new());
+    let mut v: Vec<(String, String)> = vec![];
+    let spawn = |tag: String| rt.block_on(ractor::Actor::spawn(Some(tag), Dummy, ())).expect("spawn");
+    let mon_spec = Arc::new(ProbeSpec::new(MON_WORLD, None, trace.clone()));
+    let (mon, mon_h) = rt.block_on(spawn_probe(&mon_spec, None)).expect("monitor");
+    pg::monitor_scope(pg::ALL_SCOPES_NOTIFICATION.to_string(), mon.get_cell());
+    let mut dead = HashSet::new();
+    let desc;
+    let mut ops = 0u64;
+    if variant_b {
+        let k = p.range(10, 80) as usize;
+        let njoiners = p.range(1, 3) as usize;
+        let (leaver, leaver_h) = spawn(format!("c11b-l-{seed:x}"));
+        let joiners: Vec<_> = (0..njoiners).map(|j| spawn(format!("c11b-j{j}-{seed:x}"))).collect();
+        let mut clients: Vec<Box<dyn FnOnce() + Send>> = vec![];
+        {
+            let (l, mut sp, how) = (leaver.clone(), p.fork(), p.below(3));
+            clients.push(Box::new(move || {
+                for _ in 0..sp.below(6000) {
+                    std::hint::spin_loop();
+                }
+                match how {
+                    0 => l.stop(None),
+                    1 => l.kill(),
+                    _ => {
+                        let _ = l.drain();
+                    }
+                }
+            }));
+        }
+        for (j, (a, _)) in joiners.iter().enumerate() {
+            let (a, l, mut sp, scope, tag) = (a.clone(), leaver.clone(), p.fork(), scope.clone(), format!("b{seed:x}-{j}"));
+            clients.push(Box::new(move || {
+                for _ in 0..sp.below(3000) {
+                    std::hint::spin_loop();
+                }
+                for i in 0..k {
+                    let cells = if sp.chance(1, 2) { vec![l.get_cell(), a.get_cell()] } else { vec![a.get_cell(), l.get_cell()] };
+                    pg::join_scoped(scope.clone(), format!("{tag}-{i}"), cells);
+                }
+            }));
+        }
+        th::run_clients(clients);
+        let _ = rt.block_on(leaver_h);
+        th::end();
+        let _ = rt.block_on(mon.call(PMsg::Flush, None));
+        let lp = pid_of(&leaver.get_cell());
+        dead.insert(lp);
+        v.extend(check_structure(&dead));
+        // per group: notifications about the leaver balance, the joiner's own actor joined exactly once
+        let mut per: HashMap<(String, u64), (u64, u64)> = HashMap::new();
+        for r in trace.snapshot() {
+            if let Ev::Sup { uid: MON_WORLD, kind, detail, extra, .. } = &r.ev {
+                let is_join = match kind {
+                    SupKind::PgJoin => true,
+                    SupKind::PgLeave => false,
+                    _ => continue,
+                };
+                let uniq: BTreeSet<u64> = extra.iter().copied().collect();
+                for pid in uniq {
+                    let e = per.entry((detail.clone(), pid)).or_default();
+                    if is_join {
+                        e.0 += 1;
+                    } else {
+                        e.1 += 1;
+                    }
+                }
+            }
+        }
+        for (j, (a, _)) in joiners.iter().enumerate() {
+            let ap = pid_of(&a.get_cell());
+            for i in 0..k {
+                let g = format!("{scope}/b{seed:x}-{j}-{i}");
+                let (lj, ll) = per.get(&(g.clone(), lp)).copied().unwrap_or((0, 0));
+                if lj != ll || lj > 1 {
+                    v.push(("notification-count".to_string(), format!("the all-scopes monitor saw {lj} Join and {ll} Leave notifications naming the exiting actor for {g} (a join that lost against the exit must announce nothing, one that won is followed by exactly one automatic Leave)")));
+                }
+                let (aj, _) = per.get(&(g.clone(), ap)).copied().unwrap_or((0, 0));
+                if aj != 1 {
+                    v.push(("notification-count".to_string(), format!("the all-scopes monitor saw {aj} Join notifications for the joiner's own actor in {g}, expected 1")));
+                }
+            }
+        }
+        ops = (k * njoiners) as u64;
+        desc = format!("two-writer B: {njoiners} threads join [exiting actor, own actor] into {k} fresh groups each while it exits; intensity={intensity}");
+        for (a, h) in joiners {
+            a.stop(None);
+            let _ = rt.block_on(h);
+        }
+    } else {
+        let n = p.range(10, 120) as usize;
+        let g1 = format!("c{seed:x}-home");
+        let actors: Vec<_> = (0..n).map(|i| spawn(format!("c11c-{i}-{seed:x}"))).collect();
+        for (a, _) in &actors {
+            pg::join_scoped(scope.clone(), g1.clone(), vec![a.get_cell()]);
+        }
+        let cells: Vec<ActorCell> = actors.iter().map(|(a, _)| a.get_cell()).collect();
+        let mut clients: Vec<Box<dyn FnOnce() + Send>> = vec![];
+        {
+            let (cells, scope, g1, mut sp) = (cells.clone(), scope.clone(), g1.clone(), p.fork());
+            clients.push(Box::new(move || {
+                for _ in 0..sp.below(2000) {
+                    std::hint::spin_loop();
+                }
+                for c in cells {
+                    pg::leave_scoped(scope.clone(), g1.clone(), vec![c]);
+                }
+            }));
+        }
+        {
+            let (cells, scope, mut sp, tag) = (cells.clone(), scope.clone(), p.fork(), format!("c{seed:x}"));
+            clients.push(Box::new(move || {
+                for _ in 0..sp.below(2000) {
+                    std::hint::spin_loop();
+                }
+                for (i, c) in cells.into_iter().enumerate() {
+                    pg::join_scoped(scope.clone(), format!("{tag}-{i}"), vec![c]);
+                }
+            }));
+        }
+        th::run_clients(clients);
+        th::end();
+        for (a, h) in actors {
+            dead.insert(pid_of(&a.get_cell()));
+            a.stop(None);
+            let _ = rt.block_on(h);
+        }
+        v.extend(check_structure(&dead));
+        for i in 0..n {
+            let g = format!("c{seed:x}-{i}");
+            if !pg::get_scoped_members(&scope, &g).is_empty() {
+                v.push(("dead-member".to_string(), format!("group {scope}/{g} still has members after all its actors exited")));
+            }
+        }
+        ops = 2 * n as u64;
+        desc = format!("two-writer C: {n} actors leave their home group on one thread while another thread joins them to fresh groups, then all exit; intensity={intensity}");
+    }
+    mon.stop(None);
+    let _ = rt.block_on(mon_h);
+    let _ = crate::th::settle_leaks();
+    for l in vt::global_leaks() {
+        v.push(("leak".to_string(), l));
+    }
+    for (loc, msg) in crate::take_foreign_panics() {
+        v.push(("foreign-panic".into(), format!("{loc}: {msg}")));
+    }
+    Outcome { violations: v, nontrivial: true, sig: hash_words(&[0x2b, variant_b as u64, ops, intensity as u64]), desc: vec![desc], ops, reads_decided: 0, notifications: 0, sample: vec![] }
+}
+
 pub fn run(args: &Args, rep: &mut Report) {
     let seeds: Vec<u64> = match args.replay {
         Some(s) => vec![s],
@@ -778,6 +939,7 @@ pub fn run(args: &Args, rep: &mut Report) {
         crate::watch_begin(seed);
         let o = match &rt {
             Some(rt) if seed % 4 == 1 => run_wide_th(seed, rt),
+            Some(rt) if seed % 4 == 2 => run_two_writer_th(seed, rt),
             Some(rt) => run_one_th(seed, rt),
             None => run_one_vt(seed),
         };
